@@ -52,6 +52,9 @@ C01_CORPUS = [
     ({'pred_structure': 1, 'enc_mode': 7}, {'kind': 'mix', 'seed': 9}, 7, (72, 66)),
     ({'screen_content_mode': 1, 'enc_mode': 6, 'palette_level': 6, 'intrabc_mode': 1}, {'kind': 'text', 'seed': 10}, 5, (128, 64)),
     ({'enable_restoration_filtering': 1, 'cdef_level': 1, 'enc_mode': 4}, {'kind': 'hgrad', 'seed': 11}, 4, (128, 128)),
+    # screen content in which regions appear and disappear: blocks of later pictures sit next to positions that held palette / intra-block-copy blocks in an earlier picture coded in the same pooled picture control set
+    ({'screen_content_mode': 1, 'enc_mode': 8, 'logical_processors': 2}, {'kind': 'text_flash', 'seed': 20}, 17, (192, 128)),
+    ({'screen_content_mode': 1, 'enc_mode': 6, 'hierarchical_levels': 3, 'logical_processors': 1}, {'kind': 'text_flash', 'seed': 21}, 12, (256, 192)),
     ({'intra_period_length': 3, 'intra_refresh_type': 2}, {'kind': 'mix', 'seed': 12}, 11, (64, 64)),
     # two-pass encodes (first-pass statistics fed back through rc_twopass_stats_in), constant quality and VBR
     ({'_twopass': 1, 'hierarchical_levels': 3, 'intra_period_length': 15}, {'kind': 'moving', 'seed': 18}, 14, (64, 64)),
